@@ -2227,3 +2227,83 @@ Section Allocation.
     destruct (pv (fuel_for s) 0 s) as [[v rest]| |]; lia.
   Qed.
 End Allocation.
+
+(* ------------------------------------------------------------------------------------------------ *)
+(* the strings of a parsed value are made of Unicode scalar values whenever the input is (the model never manufactures a
+   surrogate: what char::from_u32 / decode_utf16 return is always a valid char) *)
+
+Lemma JChars_scalar (b o : str) : JChars false b o -> Forall scalar b -> Forall scalar o.
+Proof.
+  induction 1 as [|c t o Hc _ IH|c d t o He _ IH|h1 h2 h3 h4 code t o Hh Hns _ IH
+                  |h1 h2 h3 h4 g1 g2 g3 g4 hi lo t o Hh Hg Hhi Hlo _ IH|h1 h2 h3 h4 code t o Hl _ _ _ _]; intro Hb.
+  - constructor.
+  - constructor; [exact (Forall_inv Hb)|apply IH; exact (Forall_inv_tail Hb)].
+  - constructor.
+    + unfold escape_of in He. unfold scalar. left.
+      destruct He as [[_ ->]|[[_ ->]|[[_ ->]|[[_ ->]|[[_ ->]|[[_ ->]|[[_ ->]|[_ ->]]]]]]]]; lia.
+    + apply IH. do 2 apply Forall_inv_tail in Hb. exact Hb.
+  - constructor.
+    + pose proof (hex4_is_bound _ _ _ _ _ Hh). unfold scalar, surrogate in *. lia.
+    + apply IH. do 6 apply Forall_inv_tail in Hb. exact Hb.
+  - constructor.
+    + unfold scalar, high_surrogate, low_surrogate in *. right. lia.
+    + apply IH. do 12 apply Forall_inv_tail in Hb. exact Hb.
+  - discriminate Hl.
+Qed.
+
+Section Scalars.
+  Variable F : Type.
+  Variable fparse : str -> option F.
+
+  Lemma strings_all_arr_cons (x : value F) (r : list (value F)) :
+    strings_all F scalar (VArr (x :: r)) = (strings_all F scalar x /\ strings_all F scalar (VArr r)).
+  Proof. reflexivity. Qed.
+
+  Lemma strings_all_obj_cons (k : str) (x : value F) (r : list (str * value F)) :
+    strings_all F scalar (VObj ((k, x) :: r)) = (Forall scalar k /\ strings_all F scalar x /\ strings_all F scalar (VObj r)).
+  Proof. reflexivity. Qed.
+
+  Ltac fa_split H :=
+    repeat match type of H with
+           | Forall _ (_ ++ _) => apply Forall_app in H; let H1 := fresh H in destruct H as [H1 H]
+           | Forall _ (_ :: _) => let H1 := fresh H in pose proof (Forall_inv H) as H1; apply Forall_inv_tail in H
+           end.
+
+  Lemma scalar_all :
+    (forall t v, JValue F fparse false t v -> Forall scalar t -> strings_all F scalar v) /\
+    (forall b vs, JElems F fparse false b vs -> Forall scalar b -> strings_all F scalar (VArr vs)) /\
+    (forall b ms, JMembers F fparse false b ms -> Forall scalar b -> strings_all F scalar (VObj ms)).
+  Proof.
+    apply JValue_mutind; try (intros; exact I).
+    - intros b o Hb Ht. cbn [strings_all]. apply Forall_inv_tail in Ht. apply Forall_app in Ht.
+      apply (JChars_scalar b o Hb). tauto.
+    - intros b vs _ IH Ht. apply IH. apply Forall_inv_tail in Ht. apply Forall_app in Ht. tauto.
+    - intros b ms _ IH Ht. apply IH. apply Forall_inv_tail in Ht. apply Forall_app in Ht. tauto.
+    - intros w1 t v w2 _ _ IHv _ Ht. rewrite strings_all_arr_cons. split; [|exact I].
+      apply IHv. apply Forall_app in Ht. destruct Ht as [_ Ht]. apply Forall_app in Ht. tauto.
+    - intros w1 t v w2 b vs _ _ IHv _ _ IHb Ht. rewrite strings_all_arr_cons.
+      apply Forall_app in Ht. destruct Ht as [_ Ht]. apply Forall_app in Ht. destruct Ht as [Ht1 Ht].
+      apply Forall_app in Ht. destruct Ht as [_ Ht]. apply Forall_inv_tail in Ht.
+      split; [apply IHv; exact Ht1|apply IHb; exact Ht].
+    - intros w1 kb k w2 w3 t v w4 _ Hk _ _ _ IHv _ Ht. rewrite strings_all_obj_cons.
+      apply Forall_app in Ht. destruct Ht as [_ Ht]. apply Forall_inv_tail in Ht.
+      apply Forall_app in Ht. destruct Ht as [Hkb Ht]. apply Forall_inv_tail in Ht.
+      apply Forall_app in Ht. destruct Ht as [_ Ht]. apply Forall_inv_tail in Ht.
+      apply Forall_app in Ht. destruct Ht as [_ Ht]. apply Forall_app in Ht. destruct Ht as [Ht1 _].
+      split; [apply (JChars_scalar kb k Hk Hkb)|]. split; [apply IHv; exact Ht1|exact I].
+    - intros w1 kb k w2 w3 t v w4 b ms _ Hk _ _ _ IHv _ _ IHb Ht. rewrite strings_all_obj_cons.
+      apply Forall_app in Ht. destruct Ht as [_ Ht]. apply Forall_inv_tail in Ht.
+      apply Forall_app in Ht. destruct Ht as [Hkb Ht]. apply Forall_inv_tail in Ht.
+      apply Forall_app in Ht. destruct Ht as [_ Ht]. apply Forall_inv_tail in Ht.
+      apply Forall_app in Ht. destruct Ht as [_ Ht]. apply Forall_app in Ht. destruct Ht as [Ht1 Ht].
+      apply Forall_app in Ht. destruct Ht as [_ Ht]. apply Forall_inv_tail in Ht.
+      split; [apply (JChars_scalar kb k Hk Hkb)|]. split; [apply IHv; exact Ht1|apply IHb; exact Ht].
+  Qed.
+
+  Theorem parse_strings_scalar (s : str) (v : value F) :
+    parse fparse s = Ok v -> Forall scalar s -> strings_all F scalar v.
+  Proof.
+    intros H Hs. apply parse_sound in H. destruct H as [(w1 & t & w2 & -> & _ & Hv & _) _].
+    apply (proj1 scalar_all t v Hv). apply Forall_app in Hs. destruct Hs as [_ Hs]. apply Forall_app in Hs. tauto.
+  Qed.
+End Scalars.
